@@ -183,7 +183,20 @@ fn cut(s: &str, n: usize) -> &str {
 /* ------------------------------ generation ------------------------------ */
 
 fn gen_message(rng: &mut Rng, small: bool) -> (String, char) {
-    match rng.below(18) {
+    match rng.below(20) {
+        // sizes at which an implementation may switch buffers or split its writes: the *encoded* event (`data: ` + line + LF per line, one
+        // more LF at the end) is exactly 2^k, k * 4096, or one byte off; single line and two lines
+        18 | 19 if !small => {
+            let total = *rng.pick(&[512usize, 1024, 2048, 4096, 8192, 12_288, 16_384, 32_768, 65_536, 131_072]);
+            let total = (total as i64 + *rng.pick(&[0i64, 0, 0, -1, 1])) as usize;
+            if rng.bool() {
+                ("s".repeat(total - 8), 'z')
+            } else {
+                let first = rng.range(1, total - 16);
+                (format!("{}\n{}", "a".repeat(first), "b".repeat(total - 15 - first)), 'z')
+            }
+        }
+        18 | 19 => ("z".repeat(rng.range(1, 80)), 'a'),
         // every kind of line break mixed in one message (a normaliser that handles each kind alone may not handle them together)
         16 => (rng.pick(&["head\r\nbody\rtail", "x\r\r\ny", "a\rb\r\nc\nd", "\r\n\r", "one\n\rtwo\r\n\nthree\r", "header\r\nbody\revent: pwned\rid: 666"]).to_string(), 'm'),
         17 => {
